@@ -15,6 +15,7 @@ import (
 func init() {
 	Runners["spock"] = runSpock
 	Runners["pop"] = runPop
+	Runners["noncanonical-valid"] = runNonCanonicalValid
 }
 
 // ---------------- C17: cases of specs/bls/SPoCK.tla
@@ -280,6 +281,100 @@ func runPop(raw json.RawMessage, seed int64) (res Result) {
 		if _, err := crypto.BLSVerifyPOP(esk.PublicKey(), cand); !crypto.IsNotBLSKeyError(err) {
 			add("NotBLSKey", fmt.Sprintf("BLSVerifyPOP(ECDSA key): %v", err))
 		}
+	}
+	return
+}
+
+// runNonCanonicalValid: the RIGHT point in a WRONG encoding.  A valid signature / proof of possession whose abscissa x is small
+// enough is re-encoded with x + p in place of x (same flags): the string names the same curve point to a reader that reduces
+// modulo p, and must be refused everywhere (C01, C05, C16: only the canonical encoding is accepted).  Two sizes of x: any x with
+// x + p < 2^381 (a quarter of all points), and a tiny x (below 2^368: found by trying keys) for readers that compare leading bytes.
+func runNonCanonicalValid(raw json.RawMessage, seed int64) (res Result) {
+	res.Violations = []Violation{}
+	defer func() {
+		if r := recover(); r != nil {
+			res.Violations = append(res.Violations, Violation{"C09", "NoPanic", fmt.Sprintf("non-canonical valid encodings: panic: %v", r)})
+		}
+	}()
+	w := NewWorld(seed)
+	add := func(prop, pred, d string) {
+		if len(res.Violations) < 6 {
+			res.Violations = append(res.Violations, Violation{prop, pred, fmt.Sprintf("%s [seed %d]", d, seed)})
+		}
+	}
+	m := w.Msg("m1")
+	h := w.Hasher("kmac", "m1")
+	limitAny := new(big.Int).Sub(new(big.Int).Lsh(big.NewInt(1), 381), ref.P)
+	limitTiny := new(big.Int).Lsh(big.NewInt(7), 365) // 7/8 * 2^368
+	plusP := func(sig []byte) []byte {
+		x := new(big.Int).SetBytes(sig)
+		x.SetBit(x, 383, 0)
+		x.SetBit(x, 382, 0)
+		x.SetBit(x, 381, 0)
+		out := make([]byte, 48)
+		new(big.Int).Add(x, ref.P).FillBytes(out)
+		out[0] |= sig[0] & 0xE0
+		return out
+	}
+	xOf := func(sig []byte) *big.Int {
+		x := new(big.Int).SetBytes(sig)
+		x.SetBit(x, 383, 0)
+		x.SetBit(x, 382, 0)
+		x.SetBit(x, 381, 0)
+		return x
+	}
+	foundAny := 0
+	tinyOf := [2]int{} // per kind: signature, proof of possession
+	for k := int64(1); k <= 60000 && (foundAny < 3 || tinyOf[0] < 1 || tinyOf[1] < 1); k++ {
+		sc := new(big.Int).Add(w.Scalar("ncv-base"), big.NewInt(k))
+		sc.Mod(sc, ref.R)
+		if sc.Sign() == 0 {
+			continue
+		}
+		sk := w.SK(sc)
+		// signatures and proofs of possession
+		sig, err := sk.Sign(m.Data, h)
+		if err != nil {
+			panic(err)
+		}
+		pop, err := crypto.BLSGeneratePOP(sk)
+		if err != nil {
+			panic(err)
+		}
+		cands := [][]byte{sig, pop}
+		for ci, cand := range cands {
+			x := xOf(cand)
+			tiny := x.Cmp(limitTiny) < 0
+			if !(tiny && tinyOf[ci] < 2) && !(x.Cmp(limitAny) < 0 && foundAny < 3) {
+				continue
+			}
+			if tiny {
+				tinyOf[ci]++
+			} else {
+				foundAny++
+			}
+			nc := plusP(cand)
+			pk := sk.PublicKey()
+			res.Evals += 3
+			if ci == 0 {
+				if ok, err := pk.Verify(nc, m.Data, h); ok || err != nil {
+					add("C01", "AcceptanceSet", fmt.Sprintf("Verify accepts the valid signature re-encoded with x + p in place of x: %x (x has %d bits)", nc, x.BitLen()))
+				}
+			} else {
+				if ok, err := crypto.BLSVerifyPOP(pk, nc); ok || err != nil {
+					add("C16", "PopExact", fmt.Sprintf("BLSVerifyPOP accepts the proof of possession re-encoded with x + p in place of x: %x (x has %d bits)", nc, x.BitLen()))
+				}
+			}
+			if out, err := crypto.AggregateBLSSignatures([]crypto.Signature{nc}); err == nil {
+				add("C05", "AcceptsExactlyCanonical", fmt.Sprintf("AggregateBLSSignatures accepts %x (a valid point with x + p in place of x) and returns %x", nc, []byte(out)))
+			}
+			if ok, _ := crypto.SPOCKVerify(pk, nc, pk, nc); ok {
+				add("C17", "PairingRelation", fmt.Sprintf("SPOCKVerify accepts the non-canonical encoding %x", nc))
+			}
+		}
+	}
+	if foundAny == 0 {
+		panic("harness: no signature with x + p < 2^381 found")
 	}
 	return
 }
